@@ -31,8 +31,7 @@ func keepDecision(local, remote string, incoming bool) bool {
 	svc := api.NewServiceDetails(remote)
 	c02 = &c02Env{}
 	keep := e.h.keepThisConnection(&websocket.Conn{}, incoming, svc)
-	zzvrt.RunSpawned("CloseConnection")
-	zzvrt.RunSpawned("sendWSCloseMessage")
+	zzvrt.RunAll()
 	if keep {
 		zzvrt.Assert(existing.closed == 1, "C05.kept-new-but-old-not-closed")
 		zzvrt.Assert(c02.connCloses == 0, "C05.kept-new-but-closed-it")
@@ -98,7 +97,7 @@ func H_C05_Backoff() {
 	h.connectionAttemptRunning[skiA] = true
 	before := len(e.log.Ev)
 	h.coordinateConnectionInitations(skiA, mdnsEntry(skiA))
-	zzvrt.Assert(zzvrt.NumParked("prepareConnectionInitation") == 0 && zzvrt.NumParked("coordinateConnectionInitations$1") == 0 && len(e.log.Ev) == before, "C05.second-attempt-while-running")
+	zzvrt.Assert(zzvrt.NumParked("") == 0 && len(e.log.Ev) == before, "C05.second-attempt-while-running")
 	zzvrt.Cover("hub.end")
 }
 
